@@ -13,6 +13,7 @@ from .genv import VGen
 
 STRUCT_KEYS = {"__container__", "__unknown_keys__", "member_errors", "variants", "key", "value"}
 MARK = "\x00MARK\x00"
+ARG_NAMES = ["a", "value", "kw_" + "x" * 30, "q" + "_long_keyword" * 5, "n" * 120]
 
 
 def shape(x: Any) -> Any:
@@ -169,9 +170,10 @@ def deepen(g: VGen, rng: random.Random, c: dict) -> dict:
 def shard(seed: int, shard_i: int, n: int, opts: dict) -> dict:
     from koda_validate import Invalid
     from koda_validate.serialization import to_serializable_errs
-    from koda_validate.signature import InvalidReturnError
+    from koda_validate.signature import InvalidArgsError, InvalidReturnError
     rng = random.Random(f"{seed}-{shard_i}-c12{opts.get('salt', '')}")
     g = VGen(rng, async_rate=0.05, user_rate=0.1, special_rate=0.03)
+    arng = random.Random(f"{seed}-{shard_i}-c12names")
     reqs: List[dict] = []
     obs: List[dict] = []
     failures: List[dict] = []
@@ -264,6 +266,23 @@ def shard(seed: int, shard_i: int, n: int, opts: dict) -> dict:
         except BaseException as e:  # noqa
             o["lines"] = None
             failures.append({"property": "C12", "case": c, "xd": invd, "what": f"the message renderer raised {type(e).__name__}", "real": None})
+        # the same error as the failure of one or two named arguments: the name is the caller's (a **kwargs keyword can be
+        # any length), the body under each name is the return-error body
+        names = arng.sample(ARG_NAMES, arng.choice([1, 1, 2]))
+        try:
+            amsg = str(InvalidArgsError({nm: r for nm in names}))
+            alines = amsg.split("\n")
+            if o["lines"] is not None and len(alines) - 3 != len(names) * (1 + o["lines"]):
+                failures.append({"property": "C12", "case": c, "xd": invd,
+                                 "what": f"InvalidArgsError for {len(names)} arguments renders {len(alines) - 3} lines; each argument is one header line and the {o['lines']}-line error body",
+                                 "real": None})
+            elif any(not any(ln.startswith(nm + "=") for ln in alines) for nm in names):
+                failures.append({"property": "C12", "case": c, "xd": invd,
+                                 "what": "InvalidArgsError message lacks the `name=value` header line of a failing argument", "real": None})
+        except BaseException as e:  # noqa
+            failures.append({"property": "C12", "case": c, "xd": invd,
+                             "what": f"the InvalidArgsError message renderer raised {type(e).__name__} for argument names of length {[len(nm) for nm in names]}",
+                             "real": None})
         if builtin_only(invd, ups):
             for which in ("default", "marker"):
                 if "raised" in o[which]:
